@@ -1338,3 +1338,102 @@ def run_reservecap(prog, ctx=None):
                 res.ob("%s:%s" % (f.qn, norm(show(e, f))[:70]), not bad, f, e.get("l", 0),
                        "" if not bad else "writes %d byte(s) at offset %s of a buffer reserved for exactly %s bytes: succeeds only while the allocator rounds the size up" % (L, P, N))
     return res
+
+
+def run_undoset(prog, ctx=None):
+    """UNDOSET: a block inside a loop that takes back the step just made (three or more unit updates that are the inverse of
+    unit updates on the way from the loop head) takes back *all* of them: a counter left out stays advanced"""
+    res = Result("UNDOSET")
+    files = set(ctx.get("files", [])) if ctx else None
+
+    def unit_updates(blk, f):
+        out = {}
+        for e in blk.el:
+            for n in walk_own(e):
+                v = d = None
+                if n.get("k") == "un" and n.get("op") in ("++", "--"):
+                    t = strip(n["e"], lvalue_to_rvalue=False)
+                    if t.get("k") == "ref" and "id" in t["d"]:
+                        v, d = t["d"], (1 if n["op"] == "++" else -1)
+                elif n.get("k") == "bin" and n.get("op") in ("+=", "-=") and cval(n["b"]) == 1:
+                    t = strip(n["a"], lvalue_to_rvalue=False)
+                    if t.get("k") == "ref" and "id" in t["d"]:
+                        v, d = t["d"], (1 if n["op"] == "+=" else -1)
+                if v is not None:
+                    out[v["id"]] = (d, v["n"], n.get("l", 0))
+        return out
+
+    for f in funcs_of(prog, files):
+        loops = natural_loops(f)
+        if not loops:
+            continue
+        dom = f.dominators()
+        for h, body in sorted(loops.items()):
+            # blocks of the loop and the blocks that leave it (an undo typically ends in `break`)
+            cands = set(body) | {bid for bid, b in f.blocks.items() if any(pp in body for pp in b.preds) and h in dom[bid]}
+            for x in sorted(cands):
+                U = unit_updates(f.blocks[x], f)
+                if len(U) < 3:
+                    continue
+                D = {}
+                for y in dom[x]:
+                    if y in body and y != x:
+                        for k, v in unit_updates(f.blocks[y], f).items():
+                            D[k] = v
+                    # updates made in the conditions of dominating blocks
+                    if y in body and y != x and f.blocks[y].term and f.blocks[y].term.get("cond") is not None:
+                        fake = type("B", (), {"el": [f.blocks[y].term["cond"]]})
+                        for k, v in unit_updates(fake, f).items():
+                            D.setdefault(k, v)
+                inverse = [k for k, (d, nm, ln) in U.items() if k in D and D[k][0] == -d]
+                if len(inverse) < 3:
+                    continue
+                missing = [D[k][1] for k in D if k not in U]
+                ok = not missing
+                line = min(ln for d, nm, ln in U.values())
+                res.ob("%s:undo of %s" % (f.qn, "+".join(sorted(U[k][1] for k in inverse))), ok, f, line,
+                       "" if ok else "this block takes back %s but not %s, which the same step also changed" % (
+                           ", ".join(sorted(U[k][1] for k in inverse)), ", ".join(sorted(missing))))
+    return res
+
+
+def run_arraybound(prog, ctx=None):
+    """ARRAYBOUND: a loop that indexes an iovec array parameter A[i] is bounded by A's own element count (the integer
+    parameter that follows A), not by the count of a sibling array"""
+    res = Result("ARRAYBOUND")
+    files = set(ctx.get("files", [])) if ctx else None
+    for f in funcs_of(prog, files):
+        comp = {}
+        for k, p in enumerate(f.params):
+            if _is_iovec_ptr(f, p["t"]) and k + 1 < len(f.params) and f.T(f.params[k + 1]["t"]).get("k") == "int":
+                comp[p["id"]] = (p["n"], f.params[k + 1]["id"], f.params[k + 1]["n"])
+        if len(comp) < 1:
+            continue
+        counts = {c[1] for c in comp.values()}
+        loops = natural_loops(f)
+        for h, body in sorted(loops.items()):
+            idxs = []
+            for x in body:
+                for e in f.blocks[x].el:
+                    for n in walk_own(e):
+                        if n.get("k") == "idx":
+                            a = strip(n["a"], all_casts=True)
+                            ix = strip(n["i"], all_casts=True)
+                            if a.get("k") == "ref" and a["d"].get("id") in comp and ix.get("k") == "ref" and "id" in ix["d"]:
+                                idxs.append((n, a["d"]["id"], ix["d"]["id"]))
+            for n, aid, iid in idxs:
+                bound = None
+                for x in body:
+                    blk = f.blocks[x]
+                    if blk.term and blk.term.get("cond") is not None and any(s is not None and s not in body for s in blk.succ):
+                        c = strip(blk.term["cond"], all_casts=True)
+                        if c.get("k") == "bin" and c.get("op") in ("<", "<="):
+                            l, r = strip(c["a"], all_casts=True), strip(c["b"], all_casts=True)
+                            if l.get("k") == "ref" and l["d"].get("id") == iid and r.get("k") == "ref" and r["d"].get("id") in counts:
+                                bound = r["d"]
+                if bound is None:
+                    continue
+                ok = bound["id"] == comp[aid][1]
+                res.ob("%s:%s" % (f.qn, norm(show(n, f))), ok, f, n.get("l", 0),
+                       "" if ok else "%s[] holds %s elements but the loop runs to %s" % (comp[aid][0], comp[aid][2], bound["n"]))
+    return res
